@@ -23,7 +23,7 @@ func contentProblem(t *TokObj, schema bool) string {
 	if err != nil {
 		return "serialize: " + err.Error()
 	}
-	got, _, problems, err := ref.DecodeToken(ser)
+	got, _, problems, err := ref.DecodeTokenBase(ser, t.Base)
 	if err != nil {
 		return "independent decoder cannot read the token: " + err.Error()
 	}
